@@ -29,6 +29,18 @@ MUT = {"pop", "popitem", "update", "setdefault", "clear", "__setitem__", "__deli
        "sort", "reverse"}
 
 
+def _fed_by_rec(func, stmt, rec):
+    """the value appended is the result of the recursive export (directly or through a local)"""
+    val = stmt.value.args[0] if isinstance(stmt, ast.Expr) else stmt.value
+    if any(x in rec for x in ast.walk(val)):
+        return True
+    if isinstance(val, ast.Name):
+        for n in walk_own(func.node):
+            if isinstance(n, ast.Assign) and norm(n.targets[0]) == val.id and any(x in rec for x in ast.walk(n.value)):
+                return True
+    return False
+
+
 def run(ctx):
     p = ctx.p
     typer = typer_for(ctx)
@@ -38,10 +50,11 @@ def run(ctx):
     want = {k for k, (m, _) in link_fields(p).items() if m == "NodeMixin"}
     tables = []
     for n in walk_own(iav.node):
-        if isinstance(n, ast.Compare) and len(n.ops) == 1 and isinstance(n.ops[0], (ast.In, ast.NotIn)) \
-                and isinstance(n.comparators[0], (ast.Tuple, ast.List, ast.Set)):
-            vals = {e.value for e in n.comparators[0].elts if isinstance(e, ast.Constant)}
-            tables.append((n, vals))
+        if isinstance(n, ast.Compare) and len(n.ops) == 1 and isinstance(n.ops[0], (ast.In, ast.NotIn)):
+            from .common import const_strings
+            vals = const_strings(p, iav, n.comparators[0])
+            if vals is not None:
+                tables.append((n, vals))
     if not tables:
         ctx.viol("X1", iav, iav.node, "no skip table for the tree bookkeeping attributes found: parent/children links leak into exports",
                  construct="_iter_attr_values: skip table missing")
@@ -244,6 +257,19 @@ def run(ctx):
                 if isinstance(n, ast.Assign) and norm(n.targets[0]) == v.id and isinstance(n.value, ast.ListComp) \
                         and any(x in rec for x in ast.walk(n.value)) and not n.value.generators[0].ifs:
                     src_ok = True
+            # loop form: for child in childiter(...): <list>.append(<recursive export>) on every path
+            for li in cfg.nodes:
+                if li.kind == "loopin" and isinstance(li.ast.iter, ast.Call) and norm(li.ast.iter.func) == "childiter":
+                    heads = [h for h in cfg.nodes if h.kind == "fornext" and h.ast is li.ast]
+                    adders = [a for a in cfg.nodes if a.kind == "stmt" and isinstance(a.ast, (ast.Expr, ast.AugAssign)) and cfg.dominates(li, a) and (
+                        (isinstance(a.ast, ast.Expr) and isinstance(a.ast.value, ast.Call) and isinstance(a.ast.value.func, ast.Attribute)
+                         and a.ast.value.func.attr == "append" and norm(a.ast.value.func.value) == v.id) or
+                        (isinstance(a.ast, ast.AugAssign) and norm(a.ast.target) == v.id))]
+                    if adders and heads:
+                        reach = cfg.reach_from(li, avoid=adders, labels_excluded=("exc",))
+                        fed = all(_fed_by_rec(ex, a.ast, rec) for a in adders)
+                        if not any(h.id in reach for h in heads) and cfg.exit.id not in reach and fed:
+                            src_ok = True
         if okx and src_ok:
             ctx.inst("X4", ex, s_, "'children' stored only when the exported list is non-empty, all children in order")
         else:
@@ -254,7 +280,8 @@ def run(ctx):
     if len(ctor) == 1:
         c = ctor[0]
         kw = {k.arg: k.value for k in c.keywords}
-        good = not c.args and norm(kw.get("parent")) == "parent" and None in kw and isinstance(kw[None], ast.Name) and kw[None].id in shallow \
+        parentp = imp.posparams[2] if len(imp.posparams) > 2 else "parent"
+        good = not c.args and norm(kw.get("parent")) == parentp and None in kw and isinstance(kw[None], ast.Name) and kw[None].id in shallow \
             and len(c.keywords) == 2
         if good:
             ctx.inst("X5", imp, c, "node built as nodecls(parent=parent, **<copy of the dict>)")
@@ -280,7 +307,8 @@ def run(ctx):
             for c in recs:
                 if any(x is c for x in ast.walk(lp)):
                     b = call_binding(c, imp)
-                    if norm(b.get(datap)) == lp.target.id and norm(b.get("parent")) == node_name and len(b) == 2:
+                    parentp = imp.posparams[2] if len(imp.posparams) > 2 else "parent"
+                    if norm(b.get(datap)) == lp.target.id and norm(b.get(parentp)) == node_name and len(b) == 2:
                         okr = True
     if okr:
         ctx.inst("X5", imp, loops[0], "children imported in list order with parent=<node just built>")
@@ -305,6 +333,6 @@ def run(ctx):
     rule_optint_truthiness(ctx, typer, {DE, DI}, rule="X3")
     ctx.floor("X1", 3)
     ctx.floor("X2", 4)
-    ctx.floor("X3", 18)
+    ctx.floor("X3", 12)
     ctx.floor("X4", 1)
-    ctx.floor("X5", 6)
+    ctx.floor("X5", 4)
